@@ -457,13 +457,16 @@ func replay(casesPath, outPath string) {
 		for k, j := range cj.trails {
 			lo := int64(len(cj.data)) * 8
 			hi := int64(len(j.data)) * 8
-			gap := false
+			gap, exact := false, false
 			for _, g := range j.gaps {
-				if g[0] == lo && g[1] == hi {
+				if g[0] <= lo && g[1] >= hi { // the trailing bytes lie inside a gap field
 					gap = true
 				}
+				if g[0] == lo && g[1] == hi {
+					exact = true
+				}
 			}
-			tl = append(tl, M{"trail": cj.c.Trails[k], "tree": b2i(j.tree), "err": b2i(j.err), "got": gotOf(j), "gap": b2i(gap)})
+			tl = append(tl, M{"trail": cj.c.Trails[k], "tree": b2i(j.tree), "err": b2i(j.err), "got": gotOf(j), "gap": b2i(gap), "gapx": b2i(exact)})
 		}
 		ev["trails"] = tl
 		out.Emit(ev)
@@ -480,6 +483,10 @@ func main() {
 	switch os.Args[1] {
 	case "replay":
 		replay(os.Args[2], os.Args[3])
+	case "text":
+		textMode(kit.Atoi(os.Args[2]), os.Args[3])
+	case "cli":
+		cliMode(os.Args[2], os.Args[3])
 	default:
 		kit.Fatalf("unknown mode %q", os.Args[1])
 	}
